@@ -5,6 +5,7 @@ import ast
 from typing import Dict, List, Optional, Set, Tuple
 
 from ..cfg import CFG, ENTRY, EXIT
+from .. import sym
 from ..core import AnalysisError, FunctionInfo, Project, arg_for, dotted, is_const, kwarg, norm, param_names, walk_no_nested
 from ..util import assignments, count_negations, header_calls, header_exprs, header_walk, mentions, returns_of, stmt_text, strip_casts
 from .shared import MAT
@@ -287,6 +288,19 @@ def r1(ctx):
                   f"{f.name} must call {callee}(..., _state=_state) with the same dictionary")
 
 
+def strip_all_casts(e: ast.AST) -> ast.AST:
+    """A copy of ``e`` with every typing.cast(T, x) replaced by x."""
+    import copy
+
+    class R(ast.NodeTransformer):
+        def visit_Call(self, n):
+            self.generic_visit(n)
+            if dotted(n.func) in ("cast", "typing.cast") and len(n.args) == 2 and not n.keywords:
+                return n.args[1]
+            return n
+    return ast.fix_missing_locations(R().visit(copy.deepcopy(e)))
+
+
 def wrapper_recursion(ctx, rule: str):
     """The dict fan-out of the stateful wrapper calls itself per column with the SAME positional and keyword arguments and the column's own state."""
     P = ctx.project
@@ -544,18 +558,38 @@ def r4(ctx):
               ctx.construct(sp, text="format_expr"), "sanitize_python_code must return format_expr(sanitize_variable_names(...))")
     se = P.func("formulaic.utils.stateful_transforms.stateful_eval")
     from ..expect import contains
-    ok, why = contains(P, se, """
-        def stateful_eval(expr, env, metadata, state, spec, variables=None):
-            stateful_nodes = []
-            for node in ast.walk(code):
-                if _is_stateful_transform(node, env):
-                    stateful_nodes.append((format_expr(node), node))
-            for name, node in stateful_nodes:
-                ...
-            ...
-    """)
+    # how the stateful calls are collected for instrumentation: the collection that `for name, node in …` runs over is a LIST of
+    # (format_expr(call), call) pairs, one per call met by ast.walk(code) — built by a comprehension or by appends, with the
+    # "is this a stateful transform" test inline or in a helper
+    inst = [lp for lp in walk_no_nested(se.node) if isinstance(lp, ast.For) and isinstance(lp.target, ast.Tuple) and len(lp.target.elts) == 2
+            and any("keywords.append" in norm(x) for x in ast.walk(lp))]
+    items, keyed, walks_code = [], [], False
+    if len(inst) == 1:
+        it = inst[0].iter
+        coll = it.id if isinstance(it, ast.Name) else None
+        comps = [it] if isinstance(it, (ast.ListComp, ast.GeneratorExp)) else []
+        if coll:
+            for st in walk_no_nested(se.node):
+                if isinstance(st, ast.Assign) and len(st.targets) == 1 and norm(st.targets[0]) == coll and isinstance(st.value, (ast.ListComp, ast.GeneratorExp)):
+                    comps.append(st.value)
+                if isinstance(st, ast.Assign) and isinstance(st.targets[0], ast.Subscript) and norm(st.targets[0].value) == coll:
+                    keyed.append(st)
+                if isinstance(st, ast.Assign) and len(st.targets) == 1 and norm(st.targets[0]) == coll and isinstance(st.value, (ast.Dict, ast.DictComp)):
+                    keyed.append(st)
+                if isinstance(st, ast.Expr) and isinstance(st.value, ast.Call) and norm(st.value.func) == f"{coll}.append" and len(st.value.args) == 1:
+                    lp_ = P.parent(st)
+                    while lp_ is not None and not isinstance(lp_, (ast.For, ast.FunctionDef)):
+                        lp_ = P.parent(lp_)
+                    if isinstance(lp_, ast.For) and norm(lp_.iter) == "ast.walk(code)" and isinstance(lp_.target, ast.Name):
+                        walks_code = True
+                        items.append((st.value.args[0], lp_.target.id))
+        for c_ in comps:
+            if len(c_.generators) == 1 and norm(c_.generators[0].iter) == "ast.walk(code)" and isinstance(c_.generators[0].target, ast.Name):
+                walks_code = True
+                items.append((c_.elt, c_.generators[0].target.id))
+    ok = bool(items) and walks_code and all(sym.pm_any([f"(format_expr({v}), {v})"], strip_all_casts(e_)) is not None for e_, v in items)
     ctx.check(ok, "C04.R4", "stateful_eval keys transform state with the same normaliser", se.where, ctx.construct(se, text="state key"),
-              f"every stateful call must be collected as (format_expr(node), node): {why}")
+              f"every stateful call must be collected as (format_expr(node), node); collected: {[norm(e_)[:60] for e_, _v in items]}")
     ok, why = contains(P, se, """
         def stateful_eval(expr, env, metadata, state, spec, variables=None):
             for name, node in ANY_nodes:
@@ -570,16 +604,7 @@ def r4(ctx):
     ctx.check(ok, "C04.R4", "a transform's state dict is created once per key and handed to the call by that key", se.where, ctx.construct(se, text="state dict per key"),
               f"state[name] must be created only when absent and passed as _state: {why}")
     # every stateful call found is instrumented: the collection keeps ALL occurrences (the same call may appear twice in one factor)
-    ok, why = contains(P, se, """
-        def stateful_eval(expr, env, metadata, state, spec, variables=None):
-            stateful_nodes = []
-            for node in ast.walk(code):
-                if _is_stateful_transform(node, env):
-                    stateful_nodes.append(ANY_item)
-            for name, node in stateful_nodes:
-                ...
-            ...
-    """)
+    ok = bool(items) and not keyed
     ctx.check(ok, "C04.R4", "stateful_eval keeps every occurrence of a stateful call (appends, never overwrites by key)", se.where, ctx.construct(se, text="collect stateful nodes"),
               "stateful calls are collected with a keyed store (`nodes[key] = node`): of several identical calls in one factor only the last is handed `_state`, the "
               "others re-fit on new data")
